@@ -175,6 +175,9 @@ def check_captures_shape(fn):
                 frozenset({"V.capture in captures", "not isinstance(V.value, MatchFunction)", "V.value != X"})}
         alt = {frozenset({"V.capture in captures", "isinstance(V.value, MatchFunction)", "not V.value.fn(X)"}),
                frozenset({"V.capture in captures", "not isinstance(V.value, MatchFunction)", "X != V.value"})}
+        # an identity short cut next to the equality (`v.value is value or v.value == value`) rejects in exactly the same cases for values equal to themselves
+        ident = {"V.value is not X", "X is not V.value"}
+        shapes = {frozenset(c for c in sh if not (c in ident and ({"V.value != X", "X != V.value"} & sh))) for sh in shapes}
         if shapes not in (want, alt):
             problems.append(f"the rejecting conditions are {sorted(sorted(x) for x in shapes)}: expected a MatchFunction predicate that fails on the value, or a plain value that differs from it, for a capture present in the table")
         return problems
